@@ -107,7 +107,7 @@ PROPS["C03"] = {
 PROPS["C09"] = {
     "level": "proof",
     "technique": "Lean 4 theorems on the integer cores of samplerz.rs (RCDT = specification table and exact output law of BaseSampler, ApproxExp core free of underflow for all z < 2^63, BerExp comparison total on 7 bytes) + bit-exact differential execution of the float glue (Lean Float vs Rust f64) and an independent re-implementation of the specification's blocks",
-    "rule": "ops = base_sampler at every RCDT boundary r-1, r, r+1 and on random 72-bit values with forced leading zeros; approx_exp / ber_exp over x in [0, 100] (multiples of ln 2 and just below) and ccs in [sigmin/sigmax, 1] with ties forced on the first k = 0..7 random bytes; sampler_z on the specification's known answers, random streams with centres at integers / half-integers / large / negative, widths at sigmin, sigmax and between, keygen's parameters, forced first-trial ties; two centres beyond the i16 range (known finding F7); distinct by op line; every op judged against the harness's own BaseSampler/ApproxExp/BerExp/SamplerZ",
+    "rule": "ops = base_sampler at every RCDT boundary r-1, r, r+1 and on random 72-bit values with forced leading zeros; approx_exp / ber_exp over x in [0, 100] (multiples of ln 2 and just below) and ccs in [sigmin/sigmax, 1] with ties forced on the first k = 0..7 random bytes; sampler_z on the specification's known answers, random streams with centres at integers / half-integers / large / negative, widths at sigmin, sigmax and between, keygen's parameters, forced first-trial ties; two centres beyond the i16 range (known finding F7); distinct by op line; every op judged against the harness's own BaseSampler/ApproxExp/BerExp/SamplerZ; ffs_leaf: 400 (thorough 4000) calls of the leaf arm of ffsampling with centres a hair below / above integers, against the model and two reference sampler calls",
     "exhaustive": {"quick": (False, ""), "thorough": (False, "")},
     "level_text": "Machine-checked: the RCDT and polynomial constants in the source are the specification's; base(u) > k iff u < RCDT[k] for every u (the exact output law under uniform bytes) and base(u) <= 18; the Horner recurrence of ApproxExp never underflows for any z < 2^63 in either build mode; the BerExp comparison reads exactly the 7 bytes it is given for every threshold (no 2^-56 panic) and is 'not below' on a tie. The floating-point glue and SamplerZ's loop are executable models compared bit-for-bit with the Rust code. NOT decided: closeness of the output law to D_{Z,mu,sigma'} beyond the exact law of the base sampler, and almost-sure termination.",
     "level_note": "Trusted: Lean kernel; Lean Float = IEEE binary64 as Rust f64 for + - * / floor (executed, not proved); rand's gen::<[u8;N]> = N next_u32 calls (one byte each) as modelled by the stream generator. Known finding F7 (centres beyond the i16 range) is listed in known_findings.json.",
@@ -150,7 +150,7 @@ PROPS["C05"] = {
     "technique": "Lean 4: complete kernel enumeration of the secret-key field codec (all widths x all in-range values), keygen range guards (re-extracted) imply the format's range; whole-object round-trip theorems for public keys (all canonical vectors), secret keys (all in-range f, g, F; both build modes; sizes) and signatures; executed by the real code and by the model per generated key",
     "rule": "ops = per variant: keygen + to_bytes/from_bytes round trip of sk, pk and a signature with sizes, the decoded key signs and the original pk verifies (seeds incl. those of finding F8); for each key a traced op in which the Lean model encodes (f,g,F), compares with the real bytes, decodes them and recomputes G; the generated pk through the format model; key objects built from boundary field values (+-(2^(w-1)-1), 0) through the real encoder/decoder; distinct by op line; all judged",
     "exhaustive": {"quick": (False, "field codec enumerated completely in the theorem; keys sampled"), "thorough": (False, "")},
-    "level_text": "Machine-checked: every in-range value of every field width (5, 6, 8 bits) round-trips through the field codec and the reserved pattern is the only exception (complete enumeration); ntru_gen's guards (constants re-extracted from math.rs) put every accepted f, g, F, G inside that range for both variants; a signature re-decodes to itself; sizes 1281/897/666 and 2305/1793/1280. Whole objects: public_key_roundtrip (every canonical vector of length N encodes to 897/1793 bytes and decodes to itself) and secret_key_roundtrip (every (f, g, F) inside the guards' range serialises without overflow in both build modes to 1281/2305 bytes and decodes to the same residues). recomputed_G_is_G: the fourth polynomial, which from_bytes recomputes as intt(ntt g * (ntt f)^-1 * ntt F) with the batch inversion, is exactly G for every key with f*G - g*F = q over Z, NTT-invertible f and |G_i| <= 127 (the NTRU equation evaluated at every root of X^n+1 in Z_q; no panic in either build mode). Executed per generated key by the real code and reproduced by the model.",
+    "level_text": "Machine-checked: every in-range value of every field width (5, 6, 8 bits) round-trips through the field codec and the reserved pattern is the only exception (complete enumeration); ntru_gen's guards (constants re-extracted from math.rs) put every accepted f, g, F, G inside that range for both variants; a signature re-decodes to itself; sizes 1281/897/666 and 2305/1793/1280. Whole objects: public_key_roundtrip (every canonical vector of length N encodes to 897/1793 bytes and decodes to itself) and secret_key_roundtrip (every (f, g, F) inside the guards' range serialises without overflow in both build modes to 1281/2305 bytes and decodes to the same residues). recomputed_G_is_G: the fourth polynomial, which from_bytes recomputes as intt(ntt g * (ntt f)^-1 * ntt F) with the batch inversion, is exactly G for every key with f*G - g*F = q over Z, NTT-invertible f and |G_i| <= 127 (the NTRU equation evaluated at every root of X^n+1 in Z_q; no panic in either build mode). Executed per generated key by the real code and reproduced by the model. Every signature the complete model of sign returns has the variant's fixed size and decodes into the salt and body it was built from, for all keys, messages, streams and retry counts (model_signatures_have_fixed_size_and_decode).",
     "level_note": "Trusted: Lean kernel; translator; the construction of the key object (FFT of the basis, LDL tree) after decoding is floating-point code, executed not proved.",
     "trusted_base": TB_COMMON,
     "assumptions": [],
@@ -180,7 +180,7 @@ PROPS["C15"] = {
 PROPS["C01"] = {
     "level": "proof",
     "technique": "Lean 4: coset identity for every sampler outcome z in any commutative ring, centring is norm-minimal, sign/verify agree at the bound (extracted operators); trace refinement: the model recomputes each traced signature's bytes exactly from (key, salt, msg, z) and verifies them; independent specification verifier on every signature + the whole of sign (hash, target, fast-Fourier sampler with sampler_z at the leaves, floating-point norm test, round(ifft), compress, both retry loops) as an executable Lean model compared byte for byte with the real sign on the same generator byte stream (op sign_model)",
-    "rule": "ops = sign + verify through the public API with an injected replayable generator: 2 keys per variant (8 thorough), messages of length 0, 1, 135, 136, 10000 and random, every signature judged by the library's verify AND by the harness's specification verifier; every 6th signature additionally as a traced op (key polynomials, salt, message, rounded sampler output z) whose signature bytes and verdict the Lean model recomputes exactly; 16-thread shared-key runs; distinct by op line; sign_model: per key 2 (thorough 6) signatures of messages of 0..200 bytes with every generator byte taken from a replayable stream: signature bytes, attempt and retry counts of the Lean model of sign = those of the real sign, and the model's verify accepts them",
+    "rule": "ops = sign + verify through the public API with an injected replayable generator: 2 keys per variant (8 thorough), messages of length 0, 1, 135, 136, 10000 and random, every signature judged by the library's verify AND by the harness's specification verifier; every 6th signature additionally as a traced op (key polynomials, salt, message, rounded sampler output z) whose signature bytes and verdict the Lean model recomputes exactly; 16-thread shared-key runs; distinct by op line; sign_model: per key 2 (thorough 6) signatures of messages of 0..200 bytes with every generator byte taken from a replayable stream: signature bytes, attempt and retry counts of the Lean model of sign = those of the real sign, and the model's verify accepts them; sign_basis: 2 (thorough 12) per variant with the basis rows scaled by 18..20/16 so that the norm test and the compression fail often: both retry loops run in the real code and in the model on the same stream, same bytes and same attempt / retry counts",
     "exhaustive": {"quick": (False, ""), "thorough": (False, "")},
     "level_text": "Machine-checked integer core, for every hashed point c and EVERY sampler outcome (z0, z1): with f*G = g*F (mod q) and h = g/f, (s1, s2) = (c + z0 g + z1 G, -(z0 f + z1 F)) satisfies c - s2 h = s1; the centred representative never has larger norm; sign retries iff norm > bound while verify accepts iff norm <= bound (operators re-extracted), so whatever sign returns passes the specification's test that verify computes (C02), after a lossless compression (C07). Assembled end to end on bytes (signed_bytes_verify): for both variants, if the model of sign (norm test, byte-level compress, to_bytes) returns signature bytes for a sampler outcome z instead of retrying, those bytes parse with Signature::from_bytes and verify (hash, byte-level decompress, NTT product, centring, norm test) returns true; its hypotheses are evaluated by the model driver and reported as hyp=ok: salt length and hash length on every traced signature, the key relations h*f = g, h*F = G (exact integer check) on the first traced signature of every key. List-level core (honest_signature_verifies): for every n = 2^d <= 1024, every key with h*f = g and h*F = G mod q (established for each generated key by C04.keyCheck_ok_relations), every hashed point and every sampler outcome, if the exact pair is within the bound and s2 fits the byte budget then the model of verify (NTT product, centring, norm, byte-level decompression) returns true on the emitted bytes, in both build modes. The floating-point remainder (rounded inverse FFT exact; float norm vs exact norm) is validated per traced signature: the model rebuilds the exact signature bytes from z. Schedules: sign takes &SecretKey, the crate has no interior mutability or globals (translator scan, C15), thread_rng is thread-local; 16-thread shared-key runs are executed as support.",
     "level_note": "Trusted: Lean kernel + Mathlib ring tactics; the floating-point sampler is a universally quantified parameter (z); its accuracy is checked per trace, not proved; rare retry branches (compression overflow: ~1e-3 per Falcon-1024 signature) are reached only when sampled, the translator additionally pins that the salt is written once.",
@@ -197,7 +197,7 @@ PROPS["C08"] = {
     "technique": "Lean 4 theorems on the signing skeleton with explicit randomness (salt = first 40 draws, independent of message and key, distinct draws give distinct salts/signatures) + translator scan (salt buffer written once, before hashing) + draw-injection runs and un-hooked duplicate statistics + the whole of sign (hash, target, fast-Fourier sampler with sampler_z at the leaves, floating-point norm test, round(ifft), compress, both retry loops) as an executable Lean model compared byte for byte with the real sign on the same generator byte stream (op sign_model)",
     "rule": "ops = sign_salt with an injected generator over combinations of same/different message, key and generator seed (judged: salt = first 40 bytes the generator produced); un-hooked sign_fresh: 400 (thorough 300000 for Falcon-512: a birthday collision in any 32-bit bottleneck, 20000 for Falcon-1024) signatures from 8 threads, messages of lengths below and above one hash block, judged: all salts distinct, no constant byte position; distinct by op line; sign_model: the Lean model of sign takes the salt from the first 40 bytes of the stream and reproduces the real signature byte for byte (1 per variant, thorough 6)",
     "exhaustive": {"quick": (False, ""), "thorough": (False, "")},
-    "level_text": "Machine-checked on the model: the salt is the first 40 bytes drawn in the call, a function of the draws alone; different draws give different salts and signatures; source scan: r is filled exactly once before hash_to_point and never written again. NOT decidable by proof: that thread_rng() never repeats (OS entropy + ChaCha12, trusted); collected salts are checked for duplicates on every run as support.",
+    "level_text": "Machine-checked on the model: the salt is the first 40 bytes drawn in the call, a function of the draws alone; different draws give different salts and signatures; source scan: r is filled exactly once before hash_to_point and never written again. NOT decidable by proof: that thread_rng() never repeats (OS entropy + ChaCha12, trusted); collected salts are checked for duplicates on every run as support. On the complete model of sign (SignFlt.sign, byte-identical with the real sign): for every key, message and generator stream and any number of norm / compression retries the salt of the returned signature is the first 40 bytes the generator yielded in this call, decoding the bytes returns that salt, and calls whose streams start differently return different signatures (model_sign_salt_is_the_first_40_draws, model_sign_distinct_streams_distinct_salts).",
     "level_note": "Trusted: the operating system's entropy source and rand's ThreadRng; translator scan of `sign`.",
     "trusted_base": TB_COMMON + ["rand::thread_rng (OS-seeded ChaCha12, reseeding) is trusted to produce fresh output"],
     "assumptions": ["thread_rng output does not repeat"],
@@ -209,7 +209,7 @@ PROPS["C08"] = {
 PROPS["C10"] = {
     "level": "proof",
     "technique": "Lean 4: the fast-Fourier nearest-plane identity at every depth, proved on a generic model of ffldl/ffsampling over any field with involution (LDL* reconstruction, split/merge isometries, induction over the tree) + the same generic model instantiated with f64 and compared bit for bit with the real tree leaves and leaf centres + per-signature numerical evaluation of ||s||^2 = sigma^2 * sum((mu-z)/sigma_leaf)^2 from per-leaf traces of the real signer + the whole of sign (hash, target, fast-Fourier sampler with sampler_z at the leaves, floating-point norm test, round(ifft), compress, both retry loops) as an executable Lean model compared byte for byte with the real sign on the same generator byte stream (op sign_model)",
-    "rule": "ops = tree_leaves: per key the 2n leaf values of the real LDL tree (hook keygen_info) against the f64 instance of the model's ffldl, bit for bit; ffs_targets: per key 2 (thorough 6) signatures, the 2n leaf centres mu the real ffsampling passed to the leaf sampler (trace) against the model's ffsampling driven with the traced leaf outputs z, bit for bit; sign_model: per key 2 (thorough 12) signatures, the whole of sign in the Lean model on the same generator byte stream, byte for byte; sign_leaves: signatures with an injected generator, 2 keys x 60 per variant (thorough 4 x 1500); per signature the exact integer ||(s1,s2)||^2 recomputed from the signature bytes and public key by the specification arithmetic is compared (rel 1e-6) with sigma^2 * sum over the 2n leaf samples of ((mu - z)/sigma_leaf)^2 from the trace; leaf widths in [sigma_min, sigma_max]; norm within the bound; sign_stats: per key 3 x 160 (thorough 40 x 400) signatures, mean of sum((mu-z)/sigma_leaf)^2/(2n) within six standard errors of 1 (second moment of every leaf sample); the leaf sampler's own ops (C09's quick generator without the two inputs of finding F7) against the model and the specification's blocks; distinct by op line",
+    "rule": "ops = tree_leaves: per key the 2n leaf values of the real LDL tree (hook keygen_info) against the f64 instance of the model's ffldl, bit for bit; ffs_targets: per key 2 (thorough 6) signatures, the 2n leaf centres mu the real ffsampling passed to the leaf sampler (trace) against the model's ffsampling driven with the traced leaf outputs z, bit for bit; sign_model: per key 2 (thorough 12) signatures, the whole of sign in the Lean model on the same generator byte stream, byte for byte; sign_leaves: signatures with an injected generator, 2 keys x 60 per variant (thorough 4 x 1500); per signature the exact integer ||(s1,s2)||^2 recomputed from the signature bytes and public key by the specification arithmetic is compared (rel 1e-6) with sigma^2 * sum over the 2n leaf samples of ((mu - z)/sigma_leaf)^2 from the trace; leaf widths in [sigma_min, sigma_max]; norm within the bound; sign_stats: per key 3 x 160 (thorough 40 x 400) signatures, mean of sum((mu-z)/sigma_leaf)^2/(2n) within six standard errors of 1 (second moment of every leaf sample); the leaf sampler's own ops (C09's quick generator without the two inputs of finding F7) against the model and the specification's blocks; distinct by op line; sign_basis as in C01; ffs_leaf: the leaf arm of ffsampling (hook) on centres within 2^-8..2^-44 of an integer against the model and the reference sampler",
     "exhaustive": {"quick": (False, ""), "thorough": (False, "")},
     "level_text": "Machine-checked over any field with involution (exact arithmetic), for every depth and EVERY sequence of leaf outputs: on the tree ffldl builds from a Hermitian Gram matrix with non-zero pivots, ffsampling's output z satisfies (t-z) G (t-z)* = sum over leaves of |mu_leaf - z_leaf|^2 * d_leaf (theorem fast_fourier_nearest_plane_identity), so with leaves normalised to sigma/sqrt(d) the squared norm is sigma^2 times the sum of squared normalised deviations whatever the leaf sampler returns - this is the algebra that makes the output spherical when the leaves are sampled correctly. The generic model's f64 instance reproduces the real tree and the real leaf centres bit for bit on every traced key and signature (so the proved recursion is the recursion the code runs), and the sampler-driven recursion of the signing model - byte-identical with the real sign - is that same generic ffsampling applied to the integers the leaf sampler returned (signing_recursion_is_the_generic_one). The identity is also evaluated numerically on every traced signature (a wrong sign, a skipped normalisation or a wrong leaf breaks it). The leaf sampler is tied as in C09 (a deviation there is a deviation of the signature law) and an aggregate second-moment test over hundreds of signatures per key detects variance errors of about 1%. NOT decided: statistical closeness of the law to the spherical discrete Gaussian (Klein/GPV), i.e. the leakage statement itself.",
     "level_note": "Trusted: Lean kernel + Mathlib field_simp/ring/StarRing; the theorem is about exact field arithmetic with hypotheses Hermitian + non-zero pivots (Good), the code runs f64 - the f64 instance is compared, not proved; floating-point evaluation of the identity (tolerance 1e-6, observed 1e-12); Lean's Float (IEEE binary64 via C) in the driver.",
